@@ -164,6 +164,13 @@ def run(F, rep, tier):
                     else:
                         rep.violation(r5, key, "evaluation reads ambient state (%s: %s) via %s" % (what, p, " -> ".join(x.split("::")[-1] for x in G.path(pred, n))),
                                       "%s:%s" % (F.bodies[n]["file"], line))
+    capture_rule(F, G, rep, r5, 130)
+    rep.analysed["ambient_calls_in_carve_out"] = namb
+
+
+def capture_rule(F, G, rep, r5, floor):
+    """evaluator closures (closures whose call is deferred: stored and invoked at evaluation time) capture no interior-mutable state except the
+    registries behind RwLocks: a value computed by one evaluation cannot be kept for - or seen by - another one"""
     ndef = 0
     for clo in sorted(G.deferred):
         c = F.closures.get(clo)
@@ -182,8 +189,7 @@ def run(F, rep, tier):
         else:
             rep.violation(r5, "captures:%s" % clo, "evaluator closure %s captures interior-mutable state (%s): a later evaluation can observe an earlier one" % (clo, vias[:6]),
                           "%s:%s" % (F.bodies[clo]["file"], F.bodies[clo]["line"]) if clo in F.bodies else None)
-    rep.floor(r5, "deferred evaluator closures examined", ndef, 130)
-    rep.analysed["ambient_calls_in_carve_out"] = namb
+    rep.floor(r5, "deferred evaluator closures examined", ndef, floor)
 
 
 def grammar_rule(F, rep, rid, A):
